@@ -256,6 +256,8 @@ pub struct World {
     pub restarts: u64,
     /// cloud mode only: replica built from the reported mutations alone
     pub external: Arc<std::sync::Mutex<External>>,
+    /// cloud mode only: keys of the mutations the last `request` prepared
+    pub last_mutations: Arc<std::sync::Mutex<Vec<String>>>,
 }
 
 fn starting_time_factory() -> Arc<dyn StartingTimeFactory> {
@@ -330,7 +332,7 @@ impl World {
         let clock = Arc::new(ManualClock::new(Duration::from_secs(cfg.start_time)));
         let external = Arc::new(std::sync::Mutex::new(External::default()));
         let node = build_node_ext(&cfg, &store, clock.clone(), Some(&external)).expect("new node");
-        World { cfg, store, clock, node, restarts: 0, external }
+        World { cfg, store, clock, node, restarts: 0, external, last_mutations: Default::default() }
     }
 
     pub fn now(&self) -> u64 {
@@ -380,6 +382,7 @@ impl World {
             let r = f(&self.node);
             let muts = p.prepare();
             let n = muts.len();
+            *self.last_mutations.lock().unwrap() = muts.inner().iter().map(|m| m.0.clone()).collect();
             self.external.lock().unwrap().apply(muts.inner());
             p.commit().expect("commit");
             (r, n)
